@@ -65,7 +65,15 @@ TaiLaw(ts) ==
   /\ ~TaiListDec(<<96>> \o PlmnToWire(ts[1].plmn)).ok /\ ~TaiListDec(<<128>> \o Tail(Partial10(ts))).ok   \* type 11 / bit 8 exist only in the service area list
 \* 1..16 TAIs: k PLMNs in rotation, TACs consecutive from a base or scattered
 BigTais(n, k, pat) == [i \in 1..n |-> Tai(Pl[((i - 1) % k) + 1],
-                                          CASE pat = 1 -> TacOf(254 + i) [] pat = 2 -> TacOf(65530 + i) [] OTHER -> TacOf((i * 1234567) % 16777216))]
+                                          CASE pat = 1 -> TacOf(254 + i) [] pat = 2 -> TacOf(65530 + i) [] pat = 3 -> TacOf((i * 1234567) % 16777216)
+                                            \* TACs with arithmetic structure in ONE octet only (a TAC is a 24-bit number, most significant octet first:
+                                            \* "consecutive" is a statement about that number, not about an octet or a mis-assembled number)
+                                            [] pat = 4 -> <<(i - 1) % 2, i % 2, i - 1>>        \* low octet counts, high octets swap (000100, 010001, ...)
+                                            [] pat = 5 -> <<i, 0, 7>>                          \* high octet counts
+                                            [] pat = 6 -> <<0, i, 255>>                        \* middle octet counts
+                                            [] pat = 7 -> TacOf(70000 - i)                     \* consecutive, descending
+                                            [] pat = 8 -> <<(250 + i) % 256, (250 + i) \div 256, 0>>   \* consecutive when read least significant octet first
+                                            [] OTHER -> <<18, 52, 86>>)]                       \* all equal
 TooMany == ~TaiListDec(<<16>> \o PlmnToWire(Pl[1]) \o Zeros(51)).ok /\ ~TaiListDec(<<64 + 31>> \o Zeros(192)).ok
            /\ ~TaiListDec(Partial00(BigTais(16, 1, 1)) \o Partial00(BigTais(1, 1, 1))).ok      \* 17 TAIs in two partial lists
 
